@@ -102,16 +102,19 @@ type h265Var struct {
 	reorder       int
 	timing        bool
 	ticks, tscale uint32
+	// general_progressive_source / interlaced_source / non_packed_constraint / frame_only_constraint flags, as the
+	// high nibble of the first constraint byte of the CODECS string (0: source scan type unknown, no constraint)
+	src uint8
 }
 
 var h265Levels = []int{90, 93, 120}
 var h265Q = []h265Var{
 	// 50/3 fps: FRAME-RATE must be the value ROUNDED to three decimals (16.667, not 16.666)
-	{w: 1280, h: 720, timing: true, ticks: 3, tscale: 50},
+	{w: 1280, h: 720, timing: true, ticks: 3, tscale: 50, src: 0xB0},
 	// picture reordering with VUI timing: the DTS extractor reads the slice headers, dts < pts
-	{w: 1920, h: 1080, timing: true, ticks: 1, tscale: 50, reorder: 2},
-	{w: 1280, h: 720, cropBottom: 8, reorder: 2}, // no VUI: the DTS extractor returns pts without reading slices
-	{w: 640, h: 360, timing: true, ticks: 1001, tscale: 30000},
+	{w: 1920, h: 1080, timing: true, ticks: 1, tscale: 50, reorder: 2, src: 0xB0},
+	{w: 1280, h: 720, cropBottom: 8, reorder: 2, src: 0x00}, // no VUI: the DTS extractor returns pts without reading slices
+	{w: 640, h: 360, timing: true, ticks: 1001, tscale: 30000, src: 0x90},
 }
 
 // h265ReorderOf: (sps_max_num_reorder_pics, 90 kHz ticks per picture) when the DTS extractor derives
@@ -135,9 +138,10 @@ func h265FPS(p int64) float64 {
 }
 
 // hvc1.<profile_idc>.<compatibility flags, reversed bit order, hex>.<tier><level>.<constraint bytes>
-// Main profile (1), compatibility flags 1 and 2 -> 6, main tier, progressive + non-packed + frame-only -> B0
+// Main profile (1), compatibility flags 1 and 2 -> 6, main tier, progressive + non-packed + frame-only -> B0,
+// progressive + frame-only -> 90, none of the four -> 0
 func h265CodecString(p int64) string {
-	return fmt.Sprintf("hvc1.1.6.L%d.B0", h265Levels[pg(p)])
+	return fmt.Sprintf("hvc1.1.6.L%d.%X", h265Levels[pg(p)], h265Q[pq(p)].src)
 }
 
 func h265SPSOf(p int64) []byte {
@@ -153,10 +157,10 @@ func h265SPSOf(p int64) []byte {
 	for j := 0; j < 32; j++ {
 		w.flag(j == 1 || j == 2) // general_profile_compatibility_flag[j]
 	}
-	w.put(1, 1)  // general_progressive_source_flag
-	w.put(0, 1)  // general_interlaced_source_flag
-	w.put(1, 1)  // general_non_packed_constraint_flag
-	w.put(1, 1)  // general_frame_only_constraint_flag
+	w.put(uint64(v.src>>7)&1, 1) // general_progressive_source_flag
+	w.put(uint64(v.src>>6)&1, 1) // general_interlaced_source_flag
+	w.put(uint64(v.src>>5)&1, 1) // general_non_packed_constraint_flag
+	w.put(uint64(v.src>>4)&1, 1) // general_frame_only_constraint_flag
 	w.put(0, 43) // general_reserved_zero_43bits
 	w.put(0, 1)  // general_inbld_flag / reserved
 	w.put(uint64(h265Levels[pg(p)]), 8)
@@ -677,9 +681,11 @@ func selfCheckCodecs() {
 		must(sps.Unmarshal(h265SPSOf(p)) == nil, "h265 SPS %d does not parse", p)
 		must(sps.Width() == h265Width(p) && sps.Height() == h265Height(p), "h265 SPS %d: %dx%d", p, sps.Width(), sps.Height())
 		must(int(sps.ProfileTierLevel.GeneralLevelIdc) == h265Levels[pg(p)] && sps.ProfileTierLevel.GeneralProfileIdc == 1 &&
-			sps.ProfileTierLevel.GeneralTierFlag == 0 && sps.ProfileTierLevel.GeneralProgressiveSourceFlag &&
-			sps.ProfileTierLevel.GeneralFrameOnlyConstraintFlag && sps.ProfileTierLevel.GeneralNonPackedConstraintFlag &&
-			!sps.ProfileTierLevel.GeneralInterlacedSourceFlag, "h265 SPS %d: profile_tier_level", p)
+			sps.ProfileTierLevel.GeneralTierFlag == 0 &&
+			sps.ProfileTierLevel.GeneralProgressiveSourceFlag == (h265Q[pq(p)].src&0x80 != 0) &&
+			sps.ProfileTierLevel.GeneralInterlacedSourceFlag == (h265Q[pq(p)].src&0x40 != 0) &&
+			sps.ProfileTierLevel.GeneralNonPackedConstraintFlag == (h265Q[pq(p)].src&0x20 != 0) &&
+			sps.ProfileTierLevel.GeneralFrameOnlyConstraintFlag == (h265Q[pq(p)].src&0x10 != 0), "h265 SPS %d: profile_tier_level", p)
 		must(sps.FPS() == h265FPS(p), "h265 SPS %d: fps %v", p, sps.FPS())
 		ro, tick := h265ReorderOf(p)
 		must(len(sps.MaxNumReorderPics) == 1 && (ro != 0) == (sps.MaxNumReorderPics[0] != 0 && sps.VUI != nil && sps.VUI.TimingInfo != nil) &&
